@@ -627,7 +627,7 @@ func (r *Runner) advTotality(l *Line) lineResult {
 			}
 			// synthetic well-formed stumps with huge leaf counts (roots are fresh values)
 			if wi == 0 {
-				for _, nl := range []uint64{1<<31 + 5, 1<<62 + 3, 1 << 63, ^uint64(0), 1<<40 + 1<<20 + 1} {
+				for _, nl := range []uint64{1<<31 + 5, 1<<62 + 3, 1 << 63, ^uint64(0), 1<<40 + 1<<20 + 1, 1<<63 + 1, 1<<63 + 1<<40 + 1, ^uint64(0) - 2} {
 					pop := 0
 					for x := nl; x != 0; x &= x - 1 {
 						pop++
@@ -638,13 +638,18 @@ func (r *Runner) advTotality(l *Line) lineResult {
 					}
 					for _, t := range []uint64{0, 1, nl - 1, nl, nl + 1, 1 << 32, 1 << 63, ^uint64(0), ^uint64(0) - 1, nl / 2, nl | 1} {
 						for _, pf := range proofs {
-							for _, hs := range [][]Hash{{claimH[0]}, {zeroHash}, nil, {claimH[0], claimH[0]}} {
-								for u := 0; u < 2; u++ {
+							for _, hs := range [][]Hash{{claimH[0]}, {zeroHash}, nil, {claimH[0], claimH[0]}, {roots[len(roots)-1]}, {roots[0]}} {
+								for u := 0; u < 4; u++ {
+									// u: 0 Verify; 1-3 Stump.Update with 0, 1, 3 additions (3 wrap the leaf count near 2^64)
 									name := "Verify/hugestump"
-									if u == 1 {
+									var adds []Hash
+									if u >= 1 {
 										name = "Stump.Update/hugestump"
+										for j := 0; j < []int{0, 0, 1, 3}[u]; j++ {
+											adds = append(adds, r.sy.H(junkTerm(400+j)))
+										}
 									}
-									c := &AdvCase{Mode: "c04", API: name, Hs: termsOf(r.sy, hs), Tg: numsOf([]uint64{t}), Pf: termsOf(r.sy, pf)}
+									c := &AdvCase{Mode: "c04", API: name, Hs: termsOf(r.sy, hs), Tg: numsOf([]uint64{t}), Pf: termsOf(r.sy, pf), Adds: len(adds)}
 									c.Stump = &struct {
 										N     string   `json:"n"`
 										Roots []string `json:"roots"`
@@ -657,7 +662,7 @@ func (r *Runner) advTotality(l *Line) lineResult {
 										if u == 0 {
 											_, uerr = utreexo.Verify(s, hs, utreexo.Proof{Targets: []uint64{t}, Proof: pf})
 										} else {
-											_, uerr = s.Update(hs, nil, utreexo.Proof{Targets: []uint64{t}, Proof: pf})
+											_, uerr = s.Update(hs, adds, utreexo.Proof{Targets: []uint64{t}, Proof: pf})
 										}
 									})
 									sl.start.Store(0)
@@ -666,8 +671,8 @@ func (r *Runner) advTotality(l *Line) lineResult {
 										mu.Lock()
 										res.fails = append(res.fails, Fail{Props: []string{"C04"}, Inst: name, Cat: "panic", What: "panicked: " + pan, Case: c})
 										mu.Unlock()
-									} else if u == 1 && uerr != nil {
-										same := s.NumLeaves == nl
+									} else if u >= 1 && uerr != nil {
+										same := s.NumLeaves == nl && len(s.Roots) == len(roots)
 										for k := 0; same && k < len(roots); k++ {
 											same = s.Roots[k] == roots[k]
 										}
@@ -725,10 +730,17 @@ func replayAdvOne(cfg Config, v *Violation) int {
 				if strings.HasPrefix(c.API, "Verify") {
 					_, e = utreexo.Verify(s, hs, utreexo.Proof{Targets: tg, Proof: pf})
 				} else {
-					_, e = s.Update(hs, nil, utreexo.Proof{Targets: tg, Proof: pf})
+					var adds []Hash
+					for j := 0; j < c.Adds; j++ {
+						adds = append(adds, r.sy.H(junkTerm(400+j)))
+					}
+					_, e = s.Update(hs, adds, utreexo.Proof{Targets: tg, Proof: pf})
 					if e != nil {
+						if s.NumLeaves != nl || len(s.Roots) != len(before) {
+							out = "nonatomic"
+						}
 						for k := range before {
-							if before[k] != s.Roots[k] {
+							if k < len(s.Roots) && before[k] != s.Roots[k] {
 								out = "nonatomic"
 							}
 						}
